@@ -2,6 +2,7 @@ package main
 
 import (
 	"fmt"
+	"go/constant"
 	"go/token"
 	"go/types"
 	"strings"
@@ -511,8 +512,45 @@ func runC19(c *Ctx) {
 				return f == dbF
 			})
 		}
-		present := func(a Atom) string {
+		var present func(a Atom) string
+		// a boolean helper all of whose ways of answering true establish presence
+		helperPresent := func(call *ssa.Call) bool {
+			g := call.Call.StaticCallee()
+			if !isSmallHelper(g) || g.Signature.Results().Len() != 1 || !isBoolType(g.Signature.Results().At(0).Type()) {
+				return false
+			}
+			enterHelper(call)
+			nTrue, bad := 0, 0
+			okEnum := enumPaths(g, 256, func(pr PathResult) {
+				rv := pr.Resolve(pr.Ret.Results[0])
+				facts := pr.Facts
+				if cv, isC := rv.(*ssa.Const); isC && cv.Value != nil && cv.Value.Kind() == constant.Bool {
+					if !constant.BoolVal(cv.Value) {
+						return
+					}
+				} else {
+					facts = append(append([]Fact(nil), facts...), Fact{Cond: rv, Truth: true})
+				}
+				nTrue++
+				found := false
+				for _, a := range atomsOf(facts) {
+					if present(a) != "" {
+						found = true
+					}
+				}
+				if !found {
+					bad++
+				}
+			})
+			return okEnum && nTrue > 0 && bad == 0
+		}
+		present = func(a Atom) string {
 			x := stripConv(a.X)
+			if a.Kind == "true" && a.Truth {
+				if cc, ok := x.(*ssa.Call); ok && helperPresent(cc) {
+					return "present (decided by a helper)"
+				}
+			}
 			switch a.Kind {
 			case "eq":
 				if !a.Truth || a.Y == nil {
